@@ -235,6 +235,8 @@ class AuthServerDriver:
                     resp.append(k)
             elif e[0] == 'close':
                 resp.append('close')
+            elif e[0] == 'write-after-close':
+                resp.append('wrote %d bytes after close' % len(e[1]))
         self.last = []
         a = getattr(self.p, '_dbusAuth', None)
         closed = bool(self.t.disconnecting)
